@@ -27,6 +27,8 @@ structure Obs where
   pending : Option Req := none        -- the most recent request, as long as the machine has not taken it
   taken : Option Req := none          -- a start was taken just now; its state is still to be entered
   requesting : Bool := false          -- a start request of the module has begun and not yet posted its task
+  stopDue : Bool := false             -- a stop request of the module has begun while a state function was active (and
+                                      -- the machine has not become inactive since) and has not yet posted its task
   lastPost : Option Req := none       -- the most recent request
   postedInCycle : Bool := false       -- a request arrived since the current cycle began
   lastEnter : Option (Option Sid) := none   -- the previous event (status reports aside) if it was a transition
@@ -57,9 +59,14 @@ def isErrorRet : Ret → Bool
 /-- one more event has been seen -/
 def Obs.step (o : Obs) : Ev → Obs
   | .reqStart => { o with requesting := true, lastEnter := none, lastInterrupt := false }
+  | .reqStop => { o with stopDue := o.cur.isSome, lastEnter := none, lastInterrupt := false }
+  | .reqDone start =>
+    { o with requesting := if start then false else o.requesting, stopDue := if start then o.stopDue else false,
+             lastEnter := none, lastInterrupt := false }
   | .take => { o with pending := none, taken := startOf o.pending, lastEnter := none, lastInterrupt := false }
   | .post r =>
-    { o with pending := some r, requesting := false, lastPost := some r, postedInCycle := true,
+    { o with pending := some r, requesting := o.requesting && !isStart r, stopDue := o.stopDue && isStart r,
+             lastPost := some r, postedInCycle := true,
              idle := match r with | .stop st => st | _ => o.idle,
              lastEnter := none, lastInterrupt := false }
   | .cycleBegin =>
@@ -78,7 +85,7 @@ def Obs.step (o : Obs) : Ev → Obs
   | .interrupt _ =>
     { o with mustInterrupt := false, mustCleanup := o.runCleanup, interrupted := true, lastEnter := none, lastInterrupt := true }
   | .enter ns =>
-    { o with cur := ns, fresh := true,
+    { o with cur := ns, fresh := true, stopDue := o.stopDue && ns.isSome,
              interrupted := match ns with | none => false | some _ => o.interrupted,
              lastEnter := some ns, lastInterrupt := false }
   | .pickup _ cl snap =>
@@ -148,6 +155,20 @@ def okStopInactive (o : Obs) : Ev → Bool
     else true
   | _ => true
 
+/-- … *after stop*, for a module built on the machine: a stop request (`stop_machine`) that finds a state function
+    active — also one of a cleanup sequence in progress — has posted its stop to the machine when it returns
+    (unless the machine became inactive meanwhile: then there is nothing to stop).  A stop request that finds the
+    machine inactive does nothing (documented: "if the state machine is not running, nothing happens"). -/
+def okStopPosted (o : Obs) : Ev → Bool
+  | .reqDone false => !o.stopDue
+  | _ => true
+
+/-- … *after start*, for a module built on the machine: a start request (`start_machine`) has posted its start to the
+    machine when it returns — whatever the machine is doing. -/
+def okStartPosted (o : Obs) : Ev → Bool
+  | .reqDone true => !o.requesting
+  | _ => true
+
 /-- *after start the most recently requested state is entered with exactly its attributes …*: what the machine
     takes is the most recent request (`Obs.step`); when it is a start, the next transition enters the requested
     state, no state function is called before, and the start is completed (`pickup`) right after that transition
@@ -194,14 +215,16 @@ def NeverRaises (idle : Status) := Always idle okNoRaise
 def InitFlagExact (idle : Status) := Always idle okInit
 def CleanupExactlyOnce (idle : Status) := Always idle okCleanupOnce
 def CleanupNotInterrupted (idle : Status) := Always idle okCleanupNotInterrupted
-def StopMakesInactive (idle : Status) := Always idle okStopInactive
-def LastStartWins (idle : Status) (tr : List Ev) := Always idle okLastStart tr ∧ Always idle okPickedUp tr
+def StopMakesInactive (idle : Status) (tr : List Ev) := Always idle okStopInactive tr ∧ Always idle okStopPosted tr
+def LastStartWins (idle : Status) (tr : List Ev) :=
+  Always idle okLastStart tr ∧ Always idle okPickedUp tr ∧ Always idle okStartPosted tr
 def BusyUntilFinished (idle : Status) (r : Rules) (tr : List Ev) := Always idle (okBusy r) tr ∧ Always idle okFinal tr
 
 /-! ## monitors -/
 
 inductive Clause where
-  | bound | noRaise | initFlag | cleanupOnce | cleanupNotInterrupted | stopInactive | lastStart | pickedUp | busy | final
+  | bound | noRaise | initFlag | cleanupOnce | cleanupNotInterrupted | stopInactive | stopPosted | lastStart | pickedUp
+  | startPosted | busy | final
 deriving DecidableEq, Repr
 
 def Clause.name : Clause → String
@@ -211,6 +234,8 @@ def Clause.name : Clause → String
   | .cleanupOnce => "cleanup_exactly_once"
   | .cleanupNotInterrupted => "cleanup_not_interrupted"
   | .stopInactive => "stop_makes_inactive"
+  | .stopPosted => "stop_makes_inactive:stop-request-not-posted"
+  | .startPosted => "last_start_wins:start-request-not-posted"
   | .lastStart => "last_start_wins"
   | .pickedUp => "last_start_wins:waiting-request-not-taken"
   | .busy => "busy_until_finished"
@@ -231,6 +256,8 @@ def violated (maxloops : Nat) (hasStates : Bool) (r : Rules) (o : Obs) (e : Ev) 
   (if okCleanupOnce o e then [] else [.cleanupOnce]) ++
   (if okCleanupNotInterrupted o e then [] else [.cleanupNotInterrupted]) ++
   (if okStopInactive o e then [] else [.stopInactive]) ++
+  (if okStopPosted o e then [] else [.stopPosted]) ++
+  (if okStartPosted o e then [] else [.startPosted]) ++
   (if okLastStart o e then [] else [.lastStart]) ++
   (if okPickedUp o e then [] else [.pickedUp]) ++
   (if hasStates && !okBusy r o e then [.busy] else []) ++
